@@ -229,3 +229,85 @@ theorem appRead_local (e : EP) (h i n : Nat) (o : Obj)
     exact ⟨hb, rfl, LocalUpd.modObj e i _ o _ ho rfl⟩
 
 end Penguin.Mux
+
+namespace Penguin.Mux
+
+/-- What a read can never change: the object's sending role, its window parameters and its id. -/
+structure SenderSame (o o' : Obj) : Prop where
+  credit : o'.credit = o.credit
+  finishSent : o'.finishSent = o.finishSent
+  cap : o'.cap = o.cap
+  threshold : o'.threshold = o.threshold
+  fid : o'.fid = o.fid
+
+theorem SenderSame.refl (o : Obj) : SenderSame o o := ⟨rfl, rfl, rfl, rfl, rfl⟩
+theorem SenderSame.trans {a b c : Obj} (s : SenderSame a b) (t : SenderSame b c) : SenderSame a c :=
+  ⟨by rw [t.credit, s.credit], by rw [t.finishSent, s.finishSent], by rw [t.cap, s.cap],
+   by rw [t.threshold, s.threshold], by rw [t.fid, s.fid]⟩
+
+def AcksOf (y : Nat) (em : List Msg) : Prop := ∀ m ∈ em, ∃ n, m = .frame (.acknowledge y n)
+
+theorem AcksOf.append {y : Nat} {a b : List Msg} (ha : AcksOf y a) (hb : AcksOf y b) : AcksOf y (a ++ b) := by
+  intro m hm
+  rcases List.mem_append.mp hm with h | h
+  · exact ha m h
+  · exact hb m h
+
+/-- `poll_fill_buf` in any state: object-local, sending role untouched, only acknowledgements emitted. -/
+theorem fillBuf_coarse (fuel : Nat) (e : EP) (i : Nat) (o : Obj) (ho : e.objs[i]? = some o) (hoc : e.outClosed = false) :
+    ∃ o' em, LocalUpd e (fillBuf fuel e i).1 i o' em [] ∧ SenderSame o o' ∧ AcksOf o.fid em := by
+  induction fuel generalizing e o with
+  | zero => exact ⟨o, [], LocalUpd.refl e i o ho, SenderSame.refl o, by intro m hm; cases hm⟩
+  | succ n ih =>
+    unfold fillBuf
+    rw [ho]
+    simp only
+    split
+    · exact ⟨o, [], LocalUpd.refl e i o ho, SenderSame.refl o, by intro m hm; cases hm⟩
+    · split
+      · rename_i f rest hq
+        have s1 := LocalUpd.modObj e i (fun o => { o with rxq := rest, buf := f }) o _ ho rfl
+        have hoc1 : (e.modObj i (fun o => { o with rxq := rest, buf := f })).outClosed = false := hoc
+        have key : ∃ o2 em2, LocalUpd e (ackStep (e.modObj i (fun o => { o with rxq := rest, buf := f })) i
+              { o with rxq := rest, buf := f }) i o2 em2 [] ∧ SenderSame o o2 ∧ AcksOf o.fid em2 := by
+          rcases ackStep_local _ i { o with rxq := rest, buf := f } _ s1.self hoc1 with ⟨_, s2⟩ | ⟨_, s2⟩
+          · have u := s1.trans s2
+            simp only [List.nil_append, List.append_nil] at u
+            exact ⟨_, _, u, ⟨rfl, rfl, rfl, rfl, rfl⟩, by intro m hm; simp at hm; exact ⟨_, hm⟩⟩
+          · have u := s1.trans s2
+            simp only [List.append_nil] at u
+            exact ⟨_, _, u, ⟨rfl, rfl, rfl, rfl, rfl⟩, by intro m hm; cases hm⟩
+        obtain ⟨o2, em2, u2, ss2, ak2⟩ := key
+        split
+        · have hoc2 : (ackStep (e.modObj i (fun o => { o with rxq := rest, buf := f })) i
+              { o with rxq := rest, buf := f }).outClosed = false := by
+            unfold ackStep; split <;> simp [EP.enqFrame, hoc]
+          obtain ⟨o3, em3, u3, ss3, ak3⟩ := ih _ o2 u2.self hoc2
+          have u := u2.trans u3
+          simp only [List.append_nil] at u
+          refine ⟨o3, em2 ++ em3, u, ss2.trans ss3, ak2.append ?_⟩
+          rw [← ss2.fid]; exact ak3
+        · exact ⟨o2, em2, u2, ss2, ak2⟩
+      · split
+        · exact ⟨o, [], LocalUpd.refl e i o ho, SenderSame.refl o, by intro m hm; cases hm⟩
+        · exact ⟨_, [], LocalUpd.modObj e i _ o _ ho rfl, ⟨rfl, rfl, rfl, rfl, rfl⟩, by intro m hm; cases hm⟩
+
+/-- `poll_read` in any state. -/
+theorem appRead_coarse (e : EP) (h i n : Nat) (o : Obj) (hh : e.handleObj h = some (i, o)) (hoc : e.outClosed = false) :
+    ∃ o' em, LocalUpd e (appRead e h n).1 i o' em [] ∧ SenderSame o o' ∧ AcksOf o.fid em := by
+  have ho := handleObj_obj hh
+  obtain ⟨o1, em1, u1, ss1, ak1⟩ := fillBuf_coarse (o.rxq.length + 2) e i o ho hoc
+  unfold appRead
+  rw [hh]
+  simp only
+  generalize fillBuf (o.rxq.length + 2) e i = r at u1
+  obtain ⟨e1, res⟩ := r
+  cases res with
+  | data b =>
+    have s2 := LocalUpd.modObj e1 i (fun o => { o with buf := b.drop n }) o1 _ u1.self rfl
+    have u := u1.trans s2
+    simp only [List.append_nil] at u
+    exact ⟨_, _, u, ss1.trans ⟨rfl, rfl, rfl, rfl, rfl⟩, ak1⟩
+  | _ => exact ⟨o1, em1, u1, ss1, ak1⟩
+
+end Penguin.Mux
